@@ -191,6 +191,19 @@ func generate(thorough bool) []kase {
 		b = sealed(append(slices.Clone(inner), tlsref.OuterExtensions(refs...)), nil, nil)
 		out = append(out, kase{Family: "sealed-inner-refs-twice", Desc: fmt.Sprint(refs), Keys: true, First: b.Outer.Record()})
 	}
+	{ // references to a LARGE outer extension (15 kB), repeated: the expansion must not be multiplied
+		bigExt := tlsref.Opaque(0x5a5a, 15000)
+		for _, n := range []int{2, 16, 127} {
+			var many []uint16
+			for i := 0; i < n; i++ {
+				many = append(many, 0x5a5a)
+			}
+			b := sealed(append(echx.StdEncInner(innerName, nil, false), tlsref.OuterExtensions(many...)), []tlsref.Ext{bigExt}, nil)
+			out = append(out, kase{Family: "sealed-inner-refs-big", Desc: fmt.Sprintf("%dx 15kB extension", n), Keys: true, First: b.Outer.Record()})
+		}
+		b := sealed(append(echx.StdEncInner(innerName, nil, false), tlsref.OuterExtensions(0x5a5a)), []tlsref.Ext{bigExt}, nil)
+		out = append(out, kase{Family: "sealed-inner-refs-big", Desc: "1x 15kB extension (legal)", Keys: true, First: b.Outer.Record()})
+	}
 	{ // 127 references to the same extension / to many extensions
 		var many []uint16
 		for i := 0; i < 127; i++ {
@@ -403,14 +416,23 @@ func runCase(idx int, k kase, keys []ech.Key, measure bool) (res result) {
 		ks = keys
 	}
 	var before uint64
+	var ms0 runtime.MemStats
 	if measure {
 		before = heapInUse()
+		runtime.ReadMemStats(&ms0)
 	}
 	sess, err, p := echx.OpenSession(k.First, ks)
 	if p != nil {
 		fail("panic:newconn:"+k.Family, fmt.Sprintf("NewConn panicked: %v", p))
 		res.Outcome = "panic"
 		return
+	}
+	if err != nil && measure {
+		var ms1 runtime.MemStats
+		runtime.ReadMemStats(&ms1)
+		if lim := uint64(8*len(k.First) + 24*(16384+256+5)); ms1.TotalAlloc-ms0.TotalAlloc > lim {
+			fail("alloc:"+k.Family, fmt.Sprintf("NewConn allocated %d bytes for a %d-byte first flight (limit %d)", ms1.TotalAlloc-ms0.TotalAlloc, len(k.First), lim))
+		}
 	}
 	if err != nil {
 		res.Outcome = "newconn:" + echx.ErrClass(err)
@@ -458,6 +480,17 @@ func runCase(idx int, k kase, keys []ech.Key, measure bool) (res result) {
 		}
 	}
 	if measure {
+		// transient allocation of the whole case: a small multiple of the bytes moved plus a few records per call
+		var ms1 runtime.MemStats
+		runtime.ReadMemStats(&ms1)
+		moved := len(k.First)
+		for _, o := range k.Ops {
+			moved += len(o.Data)
+		}
+		// (per record a few hundred bytes of bookkeeping are legitimate, and a record can be as short as 5 bytes: 88 B per byte moved)
+		if lim := uint64(88*moved + (2+len(k.Ops))*12*(16384+256+5)); ms1.TotalAlloc-ms0.TotalAlloc > lim {
+			fail("alloc:"+k.Family, fmt.Sprintf("the calls allocated %d bytes for %d bytes of input (limit %d): the Conn builds something much larger than a record", ms1.TotalAlloc-ms0.TotalAlloc, moved, lim))
+		}
 		harness = len(sess.T.Out)*2 + 64*len(sess.T.Writes) + sess.T.Pending() + len(k.First) + sess.HarnessBytes()
 		after := heapInUse()
 		if after > before && int(after-before)-harness > memBudget {
@@ -534,7 +567,7 @@ func Worker(tier string, shard, nshards int) {
 
 // Run is the parent: spawns the workers and aggregates.
 func Run(r *ev.Run) {
-	r.Rule("grammar-bounded exhaustive enumeration (E1) in 16 memory-capped (ulimit -v 4 GiB) single-threaded worker processes with a 20 s hang watchdog: (a) every sequence of <=2 (thorough 3) alternatives out of 47 well-/ill-formed variants of the extensions the parser interprets (SNI, ALPN, supported_versions, ech_outer_extensions, ECH: types 0/1/2, empty enc, empty/short payload, every header truncation, trailing bytes) in the outer hello with/without keys and inside a SEALED inner hello; (b) reference lists (missing, repeated, 127 entries, naming ECH); (c) every length field of plain/sealed/garbage hellos set to {0, true-1, true+1, max} and all pairs of fields; the message cut at every byte; (d) first record of every content type x length {0,1,5}, declared lengths up to 65535; (e) after an accepted / passed-through hello: every record over 7 content types x 5 lengths in either direction, all ordered pairs, ServerHello/HRR cut at every byte, length lies, split at every 3rd offset, illegal declared lengths written in 40 kB pieces, 3000 tiny records per call; (f) after HRR: second hello cut at every byte, every length field mutated, extra extensions. Oracles: no panic (recovered), no call returns 0,nil without consulting the transport, heap retained by the Conn after the calls <= 4 records + 16 KiB (measured with forced GC, GOMAXPROCS=1, harness-held bytes subtracted, confirmed by re-execution), no call longer than 20 s. distinct = distinct case indexes with distinct bytes")
+	r.Rule("grammar-bounded exhaustive enumeration (E1) in 16 memory-capped (ulimit -v 4 GiB) single-threaded worker processes with a 20 s hang watchdog: (a) every sequence of <=2 (thorough 3) alternatives out of 47 well-/ill-formed variants of the extensions the parser interprets (SNI, ALPN, supported_versions, ech_outer_extensions, ECH: types 0/1/2, empty enc, empty/short payload, every header truncation, trailing bytes) in the outer hello with/without keys and inside a SEALED inner hello; (b) reference lists (missing, repeated, 127 entries, naming ECH); (c) every length field of plain/sealed/garbage hellos set to {0, true-1, true+1, max} and all pairs of fields; the message cut at every byte; (d) first record of every content type x length {0,1,5}, declared lengths up to 65535; (e) after an accepted / passed-through hello: every record over 7 content types x 5 lengths in either direction, all ordered pairs, ServerHello/HRR cut at every byte, length lies, split at every 3rd offset, illegal declared lengths written in 40 kB pieces, 3000 tiny records per call; (f) after HRR: second hello cut at every byte, every length field mutated, extra extensions. Oracles: no panic (recovered), no call returns 0,nil without consulting the transport, bytes allocated by the calls <= 88x the bytes moved + 12 records per call (TotalAlloc delta), heap retained by the Conn after the calls <= 4 records + 16 KiB (measured with forced GC, GOMAXPROCS=1, harness-held bytes subtracted, confirmed by re-execution), no call longer than 20 s. distinct = distinct case indexes with distinct bytes")
 	r.Assume("byte noise outside the grammar is not explored (that would be fuzzing, another family)", "memory bound applies to what the Conn retains after a call returns; a single Write call may transiently hold the caller's own buffer")
 	self, err := os.Executable()
 	if err != nil {
